@@ -56,6 +56,9 @@ void harness(void)
 
 	c14_ghost_init();
 	g_allocs = g_alloc_faults = 0;
+#ifdef ESIZE
+	size = ESIZE;	/* element sizes the writer path uses: 4, 8, 16 */
+#endif
 	VERIF_ASSUME(size >= 1 && size <= 16 && count <= ((size_t)1 << 40) &&
 		     used <= count && cap <= ((size_t)1 << 40) && w < size);
 	verif_nd_bytes(elem, sizeof(elem), "elem");
